@@ -13,6 +13,10 @@ for kind in ("seeded", "benign"):
     if os.path.isdir(base):
         for i in sorted(os.listdir(base)):
             if os.path.isfile(os.path.join(base, i, "patch.diff")) and (not want or i in want or kind in want):
+                mp = os.path.join(base, i, "meta.json")
+                if os.path.isfile(mp) and json.load(open(mp)).get("retired"):
+                    print(f"{kind:7s} {i:8s} retired: {json.load(open(mp))['retired'][:120]}")
+                    continue
                 items.append((kind, i))
 def run(it):
     kind, i = it
